@@ -374,3 +374,28 @@ def deadline_guard(name, is_x, is_y, reject_when):
     g = Guard(name, boolean=boolean)
     g.seen = seen
     return g
+
+
+def ordering_outcomes(ctx, is_x, is_y):
+    """P9, exact form: for each ordering o of (x ? y) build the world in which every comparison of
+    x with y in the body takes the truth value it has under o, prune, and report whether a success
+    exit is still reachable.  returns ({'<': bool, '=': bool, '>': bool}, number of comparisons)."""
+    out = {}
+    n = 0
+    atoms = []
+    for bi, atom in ctx.atoms():
+        if atom[0] != "bool":
+            continue
+        rel = cmp_rel(atom[1], is_x, is_y)
+        if rel is not None:
+            atoms.append((bi, atom, rel))
+    for o in ("<", "=", ">"):
+        rem = set()
+        for bi, atom, rel in atoms:
+            val = o in rel
+            for tg in atom[2][not val]:
+                if tg not in atom[2][val]:
+                    rem.add((bi, tg))
+        w = ctx.with_removed(rem).settle()
+        out[o] = any(e["kind"] != "err" for e in exits(w))
+    return out, len(atoms)
